@@ -3,6 +3,7 @@ import json
 from collections import Counter, defaultdict
 
 from .. import gen
+from ..core import obs_of
 from ..rng import Rng
 
 ASSUMPTIONS = [
@@ -304,6 +305,45 @@ def run(ctx):
             ctx.violation(f"C15|{sig}", what, {"scenario": sc})
         elif stats.get("returns"):
             ctx.nontrivial([sc["models"], sc["ops"]])
+    # ---- a calling act that declares a catch for the child's error: the call is closed once, after the child has ended — by the catch
+    from . import c06
+    ccs = [c06.call_catch_scenario(Rng(ctx.seed * 8191 + k), k) for k in range(40 if ctx.tier == "quick" else 500)]
+    cres = ctx.harness("run", ccs, tag="cc")
+    for sc, res in zip(ccs, cres):
+        ctx.cov["evaluations"] += 1
+        tot["call_catch_runs"] += 1
+        if res.get("panic") or res.get("crashed"):
+            ctx.violation("C15|engine-panic", f"engine panicked: {str(res.get('panic'))[:120]}", {"scenario": sc})
+            continue
+        call_tid, closes, child_end_at, k = None, [], None, 0
+        last = None
+        for _, o in obs_of(res, {"new", "tr", "ptr", "dump"}):
+            k += 1
+            if o.get("k") == "new" and o.get("pid") == "p1" and o.get("nid") == "call1":
+                call_tid = o["tid"]
+            elif o.get("k") == "tr" and o.get("pid") == "p1" and o.get("tid") == call_tid and o.get("new") in TERMINAL:
+                closes.append((k, o["new"]))
+            elif o.get("k") == "ptr" and o.get("pid") == "p1-call1" and o.get("new") in TERMINAL and child_end_at is None:
+                # (the process transition in the trace: the delivery log of an operation comes after its trace records)
+                child_end_at = k
+            elif o.get("k") == "dump" and o.get("pid") == "p1" and not o.get("absent"):
+                last = o
+        # the error passes through the call (error, taken by its catch) and the call then ends once more, for good
+        finals = [c for c in closes if c[1] != "error"]
+        bad = None
+        if child_end_at is None:
+            bad = ("call-catch|child-did-not-end", "the child delivered no terminal event")
+        elif any(c[0] < child_end_at for c in closes):
+            bad = ("call-catch|closed-before-child-ended", f"the calling act was closed ({closes}) before the child's terminal event")
+        elif len(finals) != 1 or finals[0][1] != "completed":
+            bad = ("call-catch|call-not-closed-once", f"after the catch took the child's error the calling act ended {[c[1] for c in finals]} (expected once, completed); all endings {[c[1] for c in closes]}")
+        elif last is not None and last["state"] != "completed":
+            bad = ("call-catch|caller-not-finished", f"every interrupt was answered, the caller is {last['state']}")
+        if bad:
+            ctx.cov["monitor_failures"] += 1
+            ctx.violation(f"C15|{bad[0]}", bad[1], {"scenario": sc})
+        else:
+            ctx.nontrivial(["call-catch", sc["models"], sc["ops"]])
     ctx.sample({"model": scs[0]["models"][0], "ops": scs[0]["ops"][:8]}, limit=1)
     ctx.cov["correspondence"] = {"distribution": dict(tot), "streams_compared": ["start / terminal events and root inputs of every child against the call that started it", "state, outputs and error of the calling act against the child's ending",
                                                                                "order of terminal events of caller and child"]}
